@@ -59,6 +59,49 @@ Theorem C12_stop_stops_refuted : forall thr n,
   d_wire (i_drun w_cfg thr w_init (w_d13_prefix ++ w_idle n)) = [16; 15; 0; 4; 77; 81; 84; 84; 5; 2; 0; 0; 0; 0; 2; 97; 97].
 Proof. exact stop_stops_refuted. Qed.
 
+(* "stop stops", positive part: in EVERY reachable state of either driver (every history h) in which Stopped is desired and the
+   client is not a live connection waiting for its DISCONNECT to be flushed, the next evaluation of
+   compute_optional_state_transition — tokio: after every select! branch, hence right after the stop request itself;
+   threaded: at the end of the current loop iteration — leaves the client Stopped, having emitted exactly one Stopped event
+   (none if it already was Stopped) and no Attempt.  The excluded state is the designed wait of stop-with-DISCONNECT; it ends
+   as soon as the connection ends (the same theorem then applies in PendingReconnect's short-circuit), and D13 above is
+   exactly the case where nothing ever ends it. *)
+Theorem C12_stop_stops :
+  forall E U D e_tag e_user e_disc e_reset e_opened e_closed e_data e_wc e_service e_nst,
+  engine_facts E U D e_tag e_user e_disc e_reset e_opened e_closed e_data e_wc e_service ->
+  forall thr e0 bc timeout, e_tag e0 = TDisconnected -> forall h now,
+  let s := reach E U D e_tag e_user e_disc e_reset e_opened e_closed e_data e_wc e_service e_nst thr e0 bc timeout h in
+  d_status s = Running -> c_des (d_c s) = CStopped -> (cur s <> CConnected \/ c_stop (d_c s) <> SDisc) ->
+  let s' := check E e_opened e_closed thr s now in
+  d_status s' = Running /\ cur s' = CStopped /\ c_des (d_c s') = CStopped /\
+  exists evs, d_log s' = d_log s ++ evs /\
+              count_stopped evs = (if cstate_eqb (cur s) CStopped then 0 else 1)%nat /\
+              existsb is_attempt_ev evs = false.
+Proof. intros. eapply stop_stops_reach; eauto. Qed.
+
+(* restartable: whenever the client is Stopped and a start request has been handled, the next check starts an attempt *)
+Theorem C12_restartable :
+  forall E U D e_tag e_user e_disc e_reset e_opened e_closed e_data e_wc e_service e_nst thr e0 bc timeout h now,
+  let s := reach E U D e_tag e_user e_disc e_reset e_opened e_closed e_data e_wc e_service e_nst thr e0 bc timeout h in
+  d_status s = Running -> cur s = CStopped -> c_des (d_c s) = CConnected ->
+  let s' := check E e_opened e_closed thr s now in
+  cur s' = CConnecting /\ d_log s' = d_log s ++ [EvAttempt] /\ d_status s' <> Dead.
+Proof. intros. eapply restartable_reach; eauto. Qed.
+
+(* close is terminal: outside the wait-for-DISCONNECT state the next check after a close request ends the loop without a
+   further Attempt, and an exited loop ignores every later event (a later start cannot revive it) *)
+Theorem C12_close_terminal :
+  forall E U D e_tag e_user e_disc e_reset e_opened e_closed e_data e_wc e_service e_nst,
+  engine_facts E U D e_tag e_user e_disc e_reset e_opened e_closed e_data e_wc e_service ->
+  forall thr e0 bc timeout, e_tag e0 = TDisconnected -> forall h now k,
+  let s := reach E U D e_tag e_user e_disc e_reset e_opened e_closed e_data e_wc e_service e_nst thr e0 bc timeout h in
+  d_status s = Running -> c_des (d_c s) = CShutdown -> (cur s <> CConnected \/ c_stop (d_c s) <> SDisc) ->
+  let s' := check E e_opened e_closed thr s now in
+  d_status s' = Exited /\
+  existsb is_attempt_ev (skipn (length (d_log s)) (d_log s')) = false /\
+  drun E U D e_tag e_user e_disc e_reset e_opened e_closed e_data e_wc e_service e_nst thr s' k = s'.
+Proof. intros. eapply close_terminal_reach; eauto. Qed.
+
 (* non-vacuity: the engine facts are satisfiable, and a stop-with-DISCONNECT on an ESTABLISHED connection stops *)
 Example C12_engine_facts_satisfiable :
   engine_facts me unit unit me_tag me_user me_disc me_reset me_opened me_closed me_data me_wc me_service.
